@@ -685,6 +685,50 @@ def gen_sys_case(rng, mode, force_kind=None):
     return dict(mode=mode, doc=doc, plain=plain, ts=root, size=size, box=box, box_union=box_union, used=used, scale=s, angle=ang, empty_g=empty_g)
 
 
+CELLS4 = [(0, 0), (80, 0), (0, 80), (80, 80)]
+
+
+def gen_shared_template_case(rng):
+    """2-3 filters WITHOUT children that take their primitives from ONE template filter through xlink:href, each with its own
+    userSpaceOnUse region and used by its own element in its own 80x80 cell: every element must stay inside ITS filter's region"""
+    defs = []
+    nusers = 2 + rng.below(2)
+    cells = rng.sample(CELLS4, nusers)
+    names = []
+    kinds = ['feOffset', 'feGaussianBlur', 'feColorMatrix', 'feComponentTransfer', 'feMorphology', 'feComposite', 'feMerge']
+    prims = "".join(gen_primitive(rng, rng.choice(kinds), names, False, (30.0, 30.0, 130.0, 130.0)) for _ in range(rng.below(3)))
+    prims += rng.choice(['<feFlood flood-color="%s" flood-opacity="0.8"/>' % rng.choice(COLORS), '<feOffset dx="0" dy="0" in="SourceGraphic"/>',
+                         '<feMerge><feMergeNode in="SourceGraphic"/></feMerge>', '<feFlood flood-color="#00f" result="bg"/><feMerge><feMergeNode in="bg"/><feMergeNode in="SourceGraphic"/></feMerge>'])
+    import re as _re
+    prims = _re.sub(r' (x|y|width|height)="[^"]*"', '', prims)        # no primitive subregions here
+    tattrs = ' primitiveUnits="userSpaceOnUse"'
+    units_on_template = rng.below(2) == 0
+    if units_on_template:
+        tattrs += ' filterUnits="userSpaceOnUse"'
+    defs.append('<filter id="tpl"%s>%s</filter>' % (tattrs, prims))
+    s = rng.choice([1, 1, 1.5, 2])
+    size = int(math.ceil(160 * s))
+    root = tuple(f32_of(v) for v in (s, 0.0, 0.0, s, 0.0, 0.0))
+    body_f, body_p = '', ''
+    boxes = []
+    for u in range(nusers):
+        content, bbox = gen_content(rng, defs, prefix='u%d' % u)
+        bw, bh = bbox[2] - bbox[0], bbox[3] - bbox[1]
+        rx, ry = bbox[0] + dy(rng, -0.3, 0.3, 16) * bw, bbox[1] + dy(rng, -0.3, 0.3, 16) * bh
+        rw, rh = dy(rng, 0.5, 1.4, 16) * bw, dy(rng, 0.5, 1.4, 16) * bh
+        rx, ry, rw, rh = [round(v * 4) / 4 for v in (rx, ry, max(rw, 4.0), max(rh, 4.0))]
+        defs.append('<filter id="fs%d" xlink:href="#tpl"%s x="%s" y="%s" width="%s" height="%s"/>'
+                    % (u, '' if units_on_template else ' filterUnits="userSpaceOnUse"', num(rx), num(ry), num(rw), num(rh)))
+        gts = (0.5, 0.0, 0.0, 0.5, float(cells[u][0]), float(cells[u][1]))
+        tr = ' transform="translate(%d %d) scale(0.5)"' % cells[u]
+        body_f += '<g filter="url(#fs%d)"%s>%s</g>' % (u, tr, content)
+        body_p += '<g%s>%s</g>' % (tr, content)
+        boxes.append(hull_of([(rx, ry, rx + rw, ry + rh)], mat_mul(root, gts)))
+    head = '<svg %s width="160" height="160"><defs>%s</defs>' % (NS, "".join(defs))
+    return dict(mode='shared-template', doc=head + body_f + '</svg>', plain=head + body_p + '</svg>', ts=root, size=size, box=boxes[0], boxes=boxes,
+                box_union=None, used=['shared-href-template', '%d users' % nusers], scale=s, angle=0, empty_g=False)
+
+
 def is_ident(c):
     return c['mode'] in ('identity', 'identity-cut', 'identity-css')
 
@@ -692,6 +736,8 @@ def is_ident(c):
 def sys_payload(c, with_plain):
     ts = ",".join(repr(float(v)) for v in c['ts'])
     box = ",".join(str(v) for v in c['box']) if c['box'] else '-'
+    if c.get('boxes'):
+        box = ";".join(",".join(str(v) for v in b) for b in c['boxes'])
     cmpbox = '-'
     if c['mode'] == 'identity-cut':
         # where the region cuts the content, tiny-skia clips the paths at the layer edge and re-distributes anti-aliasing
@@ -735,8 +781,9 @@ def classify_sys(ctx, c, r, stats, with_plain):
         bad.append(('validity', "filter output has %d pixels with a colour channel above alpha, first (x,y,r,g,b,a)=%s [%s]"
                     % (r['invalid'], r['invalid_at'], "+".join(c['used']))))
     if c['box'] is not None and r['outside'] > 0:
-        text = ("%d non-transparent pixels outside the device-space filter region %s, first (x,y,alpha)=%s [%s]"
-                % (r['outside'], list(c['box']), r['outside_at'], "+".join(c['used'])))
+        text = ("%d non-transparent pixels outside the device-space filter region%s %s, first (x,y,alpha)=%s [%s]"
+                % (r['outside'], 's of the elements' if c.get('boxes') else '', [list(b) for b in c['boxes']] if c.get('boxes') else list(c['box']),
+                   r['outside_at'], "+".join(c['used'])))
         # KNOWN class layer-origin-negative (Coq: layer_origin_negative / C16_result_within_region_refuted): the filter layer starts left of /
         # above the canvas and tiny-skia's draw_pixmap repeats its last column / row one pixel beyond the layer.  Decided on the traced layer
         # box: every offending pixel must lie in that one extra column (only if x < 0) or row (only if y < 0).
@@ -823,6 +870,7 @@ def run(ctx):
     cases += [gen_sys_case(rng, 'identity') for _ in range(n_ident)]
     cases += [gen_sys_case(rng, 'identity-cut') for _ in range(n_ident // 3)]
     cases += [gen_sys_case(rng, 'identity-css') for _ in range(n_ident // 3)]
+    cases += [gen_shared_template_case(rng) for _ in range(n_list)]
     cases += [gen_sys_case(rng, 'list') for _ in range(n_list)]
     cases += [gen_sys_case(rng, 'css') for _ in range(n_css)]
     pool = cf.ThreadPoolExecutor(max_workers=2)
@@ -1006,7 +1054,7 @@ def run(ctx):
                                    "(Some {| ix := %d; iy := %d; iw := %d; ih := %d |}))"
                                    % (tuple(qstr(v) for v in t['bbox']) + tuple(t['max']) + tuple(t['ibbox'])))
                 layer_src.append((c, t))
-                if c['box'] is not None and c.get('box_union') is None:
+                if c['box'] is not None and c.get('box_union') is None and not c.get('boxes'):
                     ib = t['ibbox']
                     if not (c['box'][0] <= ib[0] and c['box'][1] <= ib[1] and ib[0] + ib[2] <= c['box'][2] and ib[1] + ib[3] <= c['box'][3]):
                         sys_bad.append(('containment', "the layer of the filtered group %s is not inside the pixel hull %s of the filter region computed from the document"
@@ -1127,7 +1175,7 @@ def run(ctx):
                                                                          box=list(c['box']), clause='containment', known_class='layer-origin-negative'))
                 continue
             ctx.violation(text, dict(op='c16-sys', doc=c['doc'], plain=c.get('plain', '-'), ts=list(c['ts']), size=c['size'],
-                                     box=list(c['box']) if c.get('box') else None, clause=kind, payload=sys_payload(c, is_ident(c)) if c['mode'] != 'corpus' else None))
+                                     box=list(c['box']) if c.get('box') else None, boxes=[list(b) for b in c['boxes']] if c.get('boxes') else None, clause=kind, payload=sys_payload(c, is_ident(c)) if c['mode'] != 'corpus' else None))
     # the witness of the known class is replayed on every run (it documents the class; if it stops reproducing the guard can be dropped)
     wit = os.path.join(vlib.VERIF, 'corpus', 'witness', 'C16-layer-origin-negative.svg')
     if os.path.exists(wit):
@@ -1219,6 +1267,8 @@ def replay(ctx, path):
     if op == 'c16-sys' and rp.get('doc'):
         ts = ",".join(repr(float(v)) for v in rp['ts'])
         box = ",".join(str(v) for v in rp['box']) if rp.get('box') else '-'
+        if rp.get('boxes'):
+            box = ";".join(",".join(str(v) for v in b) for b in rp['boxes'])
         out = ctx.rvh_batch(binp, 'c16-sys', ["-\t%s\t%s\t%s\t%d\t%d\t%s\t-" % (rp['doc'], rp.get('plain') or '-', ts, rp['size'], rp['size'], box)])
         print("document:", rp['doc'])
         print("measured:", out[0])
